@@ -14,7 +14,7 @@ use elements::secp256k1_zkp::{Keypair, Parity, PublicKey, SecretKey, XOnlyPublic
 use elements::taproot::{
     ControlBlock, LeafVersion, TapLeafHash, TapNodeHash, TapTweakHash, TaprootBuilder, TaprootSpendInfo,
 };
-use elements::Script;
+use elements::{Address, AddressParams, Script};
 use serde_json::json;
 
 use crate::engine::*;
@@ -498,6 +498,9 @@ fn check_info(
     ensure_eq!(hex(&l_out), hex(&ok.x), "{}: output key differs from lift_x(internal) + tweak*G (internal={}, root={})", label, hex(&xo), hex(&root));
     ensure_eq!(l_par == Parity::Odd, ok.odd, "{}: output key parity differs from the reference (internal={}, root={})", label, hex(&xo), hex(&root));
 
+    // --- the P2TR output script / address of this tree: OP_1 <32-byte reference output key>
+    check_p2tr(label, internal, Some(root), &ok.x, Some(info), ctx)?;
+
     // --- the script map holds exactly the visible leaves with exactly their paths
     let mut ref_map: BTreeMap<Key, BTreeSet<Vec<u8>>> = BTreeMap::new();
     let mut by_key: BTreeMap<Key, Vec<&rt::Item>> = BTreeMap::new();
@@ -697,6 +700,31 @@ fn check_info(
             "output_key": hex(&ok.x), "output_key_odd": ok.odd, "distinct_leaves": keys.len(), "duplicate_keys": dup_keys,
             "leaves_examined": chosen.len()}));
     }
+    Ok(())
+}
+
+/// `Script::new_v1_p2tr`, `Script::new_v1_p2tr_tweaked`, `Address::p2tr(..).script_pubkey()` and `Address::p2tr_tweaked`
+/// against `51 20 || x(reference output key)`
+fn check_p2tr(label: &str, internal: &XOnlyPublicKey, root: Option<H>, want_x: &H, info: Option<&TaprootSpendInfo>, ctx: &mut Ctx) -> R {
+    let mr = root.map(TapNodeHash::from_byte_array);
+    let mut want = vec![0x51u8, 0x20];
+    want.extend_from_slice(want_x);
+    let (spk, addr_spk, tweaked) = guard::guard("Script::new_v1_p2tr / Address::p2tr", 0, || {
+        let spk = Script::new_v1_p2tr(secp(), *internal, mr).to_bytes();
+        let addr_spk = Address::p2tr(secp(), *internal, mr, None, &AddressParams::ELEMENTS).script_pubkey().to_bytes();
+        let tweaked = info.map(|i| (Script::new_v1_p2tr_tweaked(i.output_key()).to_bytes(), Address::p2tr_tweaked(i.output_key(), None, &AddressParams::LIQUID).script_pubkey().to_bytes()));
+        (spk, addr_spk, tweaked)
+    })?;
+    ctx.evals_n(2);
+    let what = if root.is_some() { "internal key and merkle root" } else { "internal key without a tree" };
+    ensure_eq!(hex(&spk), hex(&want), "{}: Script::new_v1_p2tr({}) is not OP_1 <x of lift_x(internal) + tweak*G> (internal {}, root {:?})", label, what, hex(&internal.serialize()), root.map(|r| hex(&r)));
+    ensure_eq!(hex(&addr_spk), hex(&want), "{}: Address::p2tr({}).script_pubkey() is not OP_1 <reference output key> (internal {}, root {:?})", label, what, hex(&internal.serialize()), root.map(|r| hex(&r)));
+    if let Some((a, b)) = tweaked {
+        ctx.evals_n(2);
+        ensure_eq!(hex(&a), hex(&want), "{}: Script::new_v1_p2tr_tweaked(output_key()) is not OP_1 <reference output key>", label);
+        ensure_eq!(hex(&b), hex(&want), "{}: Address::p2tr_tweaked(output_key()).script_pubkey() is not OP_1 <reference output key>", label);
+    }
+    ctx.class(if root.is_some() { "p2tr-script:with-root" } else { "p2tr-script:key-only" });
     Ok(())
 }
 
@@ -901,6 +929,7 @@ fn check_key_spend(internal: &XOnlyPublicKey, root: Option<H>, t: &mut Tape, ctx
     ensure_eq!(l_par == Parity::Odd, ok.odd, "new_key_spend parity for internal {}", hex(&xo));
     ensure_eq!(l_root, root, "new_key_spend merkle root");
     ensure_eq!(n_map, 0, "new_key_spend has scripts");
+    check_p2tr("key-spend", internal, root, &ok.x, Some(&info), ctx)?;
     let key = (gen_leaf_script(t), 0xc4u8);
     ensure!(lib_control_block(&info, &key)?.is_none(), "a key-spend-only output produces a control block");
     ctx.class(if root.is_some() { "key-spend:given-root" } else { "key-spend:no-tree" });
@@ -921,6 +950,123 @@ fn chain_tree(t: &mut Tape, depth: usize) -> Node {
         node = if left_leaf { Node::Branch(Box::new(sib), Box::new(node)) } else { Node::Branch(Box::new(node), Box::new(sib)) };
     }
     node
+}
+
+/// a chain like `chain_tree` with a given node at the bottom (depth `depth`) and, optionally, the sibling leaf of
+/// one level replaced
+fn chain_tree_ext(t: &mut Tape, depth: usize, bottom: Node, replace_sib: Option<(usize, Node)>) -> Node {
+    let orient = t.below(3);
+    let leaf = |i: usize| Node::Leaf { script: vec![0x51, (i & 0xff) as u8, (i >> 8) as u8], ver: 0xc4 };
+    let mut node = bottom;
+    for d in (1..=depth).rev() {
+        let sib = match &replace_sib {
+            Some((lvl, n)) if *lvl == d => n.clone(),
+            _ => leaf(d),
+        };
+        let left_leaf = match orient {
+            0 => true,
+            1 => false,
+            _ => t.bool(),
+        };
+        node = if left_leaf { Node::Branch(Box::new(sib), Box::new(node)) } else { Node::Branch(Box::new(node), Box::new(sib)) };
+    }
+    node
+}
+
+/// Chains to depth 126..=129 whose deepest nodes are *hidden*: a hidden node has no merkle branch that could overflow,
+/// so the depth check of `insert` is the only thing that refuses one at depth 129 or 130; one at depth 128 (and its
+/// externally built 128-element proof) must be accepted.
+fn deep_hidden(t: &mut Tape, internal: &XOnlyPublicKey, kp: Option<Keypair>, ctx: &mut Ctx) -> R {
+    let depth = t.choose(&[128usize, 127, 128, 129, 126, 128]);
+    // (the two variants in which only hidden nodes go below the bottom leaves get double weight)
+    let variant = match t.below(8) {
+        6 => 2,
+        7 => 5,
+        v => v,
+    };
+    // hidden node standing for `real` (then the proof of `real` is built outside), or for nothing known
+    let mut real_subtrees: Vec<Node> = Vec::new();
+    let mut hide = |t: &mut Tape, real: Node| -> Node {
+        if t.bool() {
+            let h = rt::merkle_root(&real);
+            real_subtrees.push(real);
+            Node::Hidden(h)
+        } else {
+            Node::Hidden(t.arr32())
+        }
+    };
+    let xleaf = |i: usize| Node::Leaf { script: vec![0x52, (i & 0xff) as u8, (i >> 8) as u8, 0x87], ver: 0xc4 };
+    let (bottom, replace_sib, vname): (Node, Option<(usize, Node)>, &str) = match variant {
+        0 => (hide(t, xleaf(1)), None, "bottom-node-hidden"),
+        1 => {
+            let a = hide(t, xleaf(1));
+            let b = hide(t, xleaf(2));
+            (a, Some((depth, b)), "bottom-pair-hidden")
+        }
+        2 => {
+            let a = hide(t, xleaf(1));
+            let b = hide(t, xleaf(2));
+            (Node::Branch(Box::new(a), Box::new(b)), None, "hidden-pair-one-below-bottom")
+        }
+        3 => {
+            let a = hide(t, xleaf(1));
+            let pair = if t.bool() { Node::Branch(Box::new(a), Box::new(xleaf(2))) } else { Node::Branch(Box::new(xleaf(2)), Box::new(a)) };
+            (pair, None, "hidden+leaf-one-below-bottom")
+        }
+        4 => {
+            let lvl = t.choose(&[depth, depth - 1, 1]);
+            let h = hide(t, xleaf(3));
+            (xleaf(0), Some((lvl, h)), "sibling-hidden")
+        }
+        _ => {
+            let lvl = t.choose(&[depth, depth - 1]);
+            let a = hide(t, xleaf(1));
+            let b = hide(t, xleaf(2));
+            (xleaf(0), Some((lvl, Node::Branch(Box::new(a), Box::new(b)))), "sibling-replaced-by-hidden-pair")
+        }
+    };
+    let tree = chain_tree_ext(t, depth, bottom, replace_sib);
+    let items = rt::dfs_items(&tree);
+    let max_depth = items.iter().map(|(d, _)| *d).max().unwrap_or(0);
+    let deepest_hidden = items.iter().filter(|(_, n)| matches!(n, Node::Hidden(_))).map(|(d, _)| *d).max().unwrap_or(0);
+    let deepest_leaf = items.iter().filter(|(_, n)| matches!(n, Node::Leaf { .. })).map(|(d, _)| *d).max().unwrap_or(0);
+    let want = rt::tree_from_dfs(&items);
+    ctx.eval();
+    if want.is_none() {
+        let got = lib_build(&items, internal)?;
+        ensure!(
+            got.is_err(),
+            "a tree with a node at depth {} (limit {}) is finalized: chain to depth {}, {} - deepest hidden node at depth {}, deepest leaf at depth {}",
+            max_depth,
+            rt::MAX_DEPTH,
+            depth,
+            vname,
+            deepest_hidden,
+            deepest_leaf
+        );
+        ctx.class(&format!("deep-hidden:refused:deepest-hidden={}:deepest-leaf={}", deepest_hidden, if deepest_leaf > rt::MAX_DEPTH { ">128" } else { "<=128" }));
+        ctx.nontrivial(&("deep-hidden", depth, variant, max_depth));
+        if ctx.wants_sample("deep-hidden:refused") {
+            let stage = got.err().unwrap_or_default();
+            ctx.sample("deep-hidden:refused", || json!({"chain_depth": depth, "variant": vname, "deepest_hidden": deepest_hidden, "deepest_leaf": deepest_leaf, "refused_at": stage}));
+        }
+        return Ok(());
+    }
+    // valid: every node at depth <= 128. Hidden nodes with a known subtree get their external proof checked.
+    let mut inner: Vec<(usize, Node)> = Vec::new();
+    for sub in &real_subtrees {
+        let h = rt::merkle_root(sub);
+        if let Some(idx) = items.iter().position(|(_, n)| matches!(n, Node::Hidden(x) if *x == h)) {
+            inner.push((idx, sub.clone()));
+        }
+    }
+    ctx.class(&format!("deep-hidden:accepted:deepest-hidden={}", deepest_hidden));
+    let plan = Plan { full_neg_keys: 2, few: 2, max_keys: 6 };
+    build_valid_and_check("deep-hidden", &tree, &inner, internal, &plan, t, ctx)?;
+    if let Some(kp) = kp {
+        check_keypair(&kp, Some(rt::merkle_root(&tree)), ctx)?;
+    }
+    Ok(())
 }
 
 fn mutate_history(t: &mut Tape, items: &mut Vec<(usize, Node)>) -> &'static str {
@@ -973,6 +1119,7 @@ fn random_trees(t: &mut Tape, ctx: &mut Ctx) -> R {
     let class = t.below(16);
     let (internal, kp) = gen_internal(t);
     match class {
+        7 => deep_hidden(t, &internal, kp, ctx),
         10 => {
             // deep chains around the 128-level limit
             let depth = match t.below(8) {
@@ -1178,12 +1325,25 @@ fn huffman(t: &mut Tape, ctx: &mut Ctx) -> R {
     let info = match got {
         Ok(i) => i,
         Err(e) => {
-            if big {
-                // documented: refused when the tree would be deeper than 128
-                ctx.class("huffman:big:refused");
+            // documented: refused when the tree would be deeper than 128. With u32 weights that needs many zero
+            // weights: on the path to a leaf at depth d, the subtree of zero weight below the lowest positive node has
+            // at most z leaves (z = number of zero weights) and so at most z - 1 levels; above it the node weights
+            // grow at least like the Fibonacci numbers (each sibling weighs at least as much as the node's heavier
+            // child in a greedy merge of the two lightest), and the root weighs at most n * 2^32 < 2^40 < F(60).
+            // So d <= z + 58, and a refusal needs z >= 71; with fewer than 64 zero weights it is a violation.
+            let zeros = weights.iter().filter(|w| **w == 0).count();
+            if zeros >= 64 {
+                ctx.class("huffman:refused:>=64-zero-weights");
                 return Ok(());
             }
-            return Err(Failure::new(format!("with_huffman_tree refuses weights {:?}: {}", weights, e)));
+            return Err(Failure::new(format!(
+                "with_huffman_tree refuses {} weights of which {} are zero (no optimal tree over them is deeper than {} levels, the limit is 128): {} - weights {:?}",
+                n,
+                zeros,
+                zeros + 58,
+                e,
+                weights
+            )));
         }
     };
     let (l_root, l_out, l_par) = guard::guard("TaprootSpendInfo accessors", 0, || {
@@ -1286,6 +1446,20 @@ fn huffman(t: &mut Tape, ctx: &mut Ctx) -> R {
         ctx.nontrivial(&("huffman-dup", n, wclass, &depths));
         return Ok(());
     }
+    // the script map holds exactly the given scripts, one branch each, and that branch is the control block's
+    {
+        let map: Vec<(Vec<u8>, u8, Vec<Vec<u8>>)> = guard::guard("as_script_map", 0, || {
+            info.as_script_map().iter().map(|((s, v), set)| (s.to_bytes(), v.as_u8(), set.iter().map(|b| b.serialize()).collect())).collect()
+        })?;
+        ctx.eval();
+        ensure_eq!(map.len(), n, "Huffman over {} distinct scripts: number of script map entries", n);
+        for (s, v, branches) in &map {
+            let Some(i) = scripts.iter().position(|x| x == s) else { return Err(Failure::new(format!("Huffman: the script map holds a script that was not given: {}", hex(s)))) };
+            ensure_eq!(*v, 0xc4u8, "Huffman: leaf version of script #{}", i);
+            ensure_eq!(branches.len(), 1, "Huffman: number of merkle branches recorded for script #{} (given once)", i);
+            ensure_eq!(hex(&branches[0]), hex(&sers[i][33..]), "Huffman: the recorded merkle branch of script #{} is not the path of its control block", i);
+        }
+    }
     // optimality
     ctx.evals_n(2);
     let cost: u128 = weights.iter().zip(&depths).map(|(w, d)| u128::from(*w) * *d as u128).sum();
@@ -1341,18 +1515,28 @@ pub fn property() -> Property {
                subtrees (random hash or the real subtree hash: then leaves below have no control block but an externally built \
                proof verifies), DFS histories with one mutation (depth +-1, extreme depth, item dropped / repeated / inserted / \
                swapped) judged by the same oracle, chains to depth 40..=128 (accepted, sampled leaves) and 129..=329 (refused), \
-               new_key_spend with and without a root, and for known secrets Keypair::tap_tweak: the tweaked secret regenerates \
-               exactly the reference output point. huffman: 0..=16 (rarely up to 150) weighted scripts, weight classes all-zero / \
+               chains to depth 126..=129 whose deepest nodes are hidden (bottom node / bottom pair hidden, a hidden pair or \
+               hidden + leaf one level below the bottom, a sibling leaf replaced by a hidden node or a hidden pair): refused \
+               iff some node is deeper than 128 - a hidden node has no merkle branch to overflow, so only the depth check of \
+               insert refuses it - otherwise accepted, and the externally built proof (up to 128 elements) of the leaf behind a \
+               hidden node verifies, new_key_spend with and without a root, and for known secrets Keypair::tap_tweak: the \
+               tweaked secret regenerates exactly the reference output point. For every accepted tree and every key-spend \
+               info Script::new_v1_p2tr(internal, root), Script::new_v1_p2tr_tweaked(output_key()), Address::p2tr(..) and \
+               Address::p2tr_tweaked(..).script_pubkey() equal 51 20 || x(reference output key). huffman: 0..=16 (rarely up to 150) weighted scripts, weight classes all-zero / \
                all-equal / u32::MAX / ties / powers of two / fibonacci / edge-biased / random; empty input refused; every control \
                block's path leads to the merkle root under the reference hashes and verifies; sum(weight*depth) == optimum of the \
                harness's greedy; w_i > w_j => depth_i <= depth_j; Kraft sum 1; a repeated script returns the shortest recorded \
-               branch. Non-trivial: a tree with >= 3 leaves, or a hidden node, or a duplicate leaf, or a negative verification \
+               branch; without repeated scripts the script map has exactly one entry per script with exactly one branch, the \
+               control block's path; a refusal is accepted only with >= 64 zero weights (no optimal tree over u32 weights is \
+               deeper than #zero-weights + 58). Non-trivial: a tree with >= 3 leaves, or a hidden node, or a duplicate leaf, or a negative verification \
                (distinct by DFS depth/hidden signature, leaf and negative kind), invalid sequences of >= 3 items or with a hidden \
                node, Huffman inputs with >= 3 leaves (distinct by weight class and depth vector).",
         assumptions: &[
             "libsecp256k1 point addition (PublicKey::combine, from_secret_key) is correct; the library's x-only tweak API is not used by the oracle",
             "the harness SHA-256 is checked against FIPS 180-4 vectors, the taproot reference against the BIP-341 wallet vectors at start-up",
             "a verification succeeding for a changed script / path is a hash collision (probability 2^-128) and is treated as impossible",
+            "the domain of leaf versions is every even byte except 0x50 (the annex tag): LeafVersion::from_u8 must accept them (the statement does not define the domain; BIP-341 reserves exactly these)",
+            "'built by weight as a Huffman tree' is read as: minimum sum of weight*depth (the library sums in u64, so u32 weights cannot saturate); a non-optimal tree is reported even when no heavier leaf is deeper than a lighter one",
         ],
         subs: vec![
             Sub {
